@@ -35,7 +35,7 @@ CLAIMS["C19"] = {
             "(third-party fields included), no static is mutable / non-Freeze / thread-local, every public method takes &self, executors hold "
             "&CompiledRegex, and user-written *mut casts / transmutes are exactly the triaged set. With these, safe or audited-unsafe code cannot "
             "write through &Regex and nothing outlives a search, so concurrent results equal sequential ones.",
-    "note": COMMON_NOTE + "Assumes std's own unsafe code is sound and that the one triaged cast (RefPosition::new, haystack pointer) is never written through.",
+    "note": COMMON_NOTE + "Assumes std's own unsafe code is sound and that the one triaged cast (RefPosition::new, haystack pointer) is never written through. The proof covers sharing through &Regex (threads, clones); history carried by one Matches iterator from search to search is decided structurally by GROUPSCLEAN (capture slots reset on every handed-out match, per configuration) and EXECSTATE (the executor structs have only reviewed fields).",
     "technique": "type-level proof: trait-solver auto-trait queries + deep field-type walk + compile-pass/compile-fail witness + MIR cast inventory",
     "design_ref": "DESIGN.md §3 TYPES, §4 C19",
 }
